@@ -257,6 +257,28 @@ def addressed_object(sim, req):
     return None
 
 
+def names_missing_component(sim, req):
+    """kind of the component ('software' | 'folder' | 'file') that a node-level request path names although the node has no such LIVE
+    component at submission time (looked up on the objects, independently of the request tree), else None"""
+    if len(req) < 5 or req[0] != "network" or req[1] != "node" or not isinstance(req[2], str):
+        return None
+    node = sim.network.get_node_by_hostname(req[2])
+    if node is None:
+        return None
+    r = req[3:]
+    if r[0] in ("service", "application") and isinstance(r[1], str):
+        return "software" if r[1] not in node.software_manager.software else None
+    if r[0] == "file_system" and r[1] == "folder" and len(r) >= 4 and isinstance(r[2], str):
+        folder = node.file_system.get_folder(r[2])
+        if folder is None or folder.deleted:
+            return "folder"
+        if r[3] == "file" and len(r) >= 6 and isinstance(r[4], str):
+            f = folder.get_file(r[4])
+            if f is None or f.deleted:
+                return "file"
+    return None
+
+
 def install_routing_taps(cov, out):
     """'routed to that component's own operation': while a request naming a live file / folder / service / application is
     dispatched, every operation invoked on an object of that kind must be invoked on the named object itself"""
@@ -322,6 +344,10 @@ class ReqMonitor:
         need_snap = dr["refused"] or expect_refused
         before = snap.full(self.sim) if need_snap else None
         req_copy = copy.deepcopy(request)
+        try:
+            missing = names_missing_component(self.sim, request)
+        except Exception:
+            missing = None
         ao = None if dr["refused"] else addressed_object(self.sim, request)
         _ROUTE["cur"] = {"kind": ao[0], "obj": ao[1], "verb": VERB_METHOD.get(request[-1] if isinstance(request[-1], str) else "", request[-1]), "depth": 0,
                          "request": request} if ao else None
@@ -342,6 +368,13 @@ class ReqMonitor:
             return None, dr
         st = resp.status
         self.cov.hit("statuses", st)
+        if missing:
+            # independent of the dispatcher dry-run: the node has no live component of that name, whatever the request tree still routes
+            self.cov.inc("requests_naming_missing_component")
+            self.cov.hit("requests_naming_missing_component_by_kind", f"{missing}:{st}")
+            if st == "success":
+                self.v(f"request-on-missing-{missing}-answered-success/{sig(path_only if path_only is not None else request)}",
+                       f"{request} names a {missing} that does not exist (live) on the node at submission time, but was answered success", {"request": request})
         if dr["refused"]:
             self.cov.inc("refused_requests")
             self.cov.hit("refusals_by_depth", str(dr["depth"]))
